@@ -125,6 +125,13 @@ func (f *zc33FakeGCS) serve(w http.ResponseWriter, r *http.Request) {
 type zc33Stream struct {
 	Pos    int
 	blocks int
+	// reads counts the top-level Read calls; hook (if set) runs inside every top-level Read,
+	// once before and once after the bytes are delivered. Reads made from inside the hook are
+	// served without counting and without running the hook again.
+	epoch  int
+	reads  int
+	hook   func(read int, after bool)
+	inHook bool
 }
 
 func zc33Cap(i int) int {
@@ -137,6 +144,32 @@ func zc33Cap(i int) int {
 	return 8
 }
 
+// zc33Epochs numbers the streams of this process. Every block also carries its stream's
+// epoch (in bytes away from the counter), so blocks handed out in DIFFERENT executions are
+// distinct as well: a generator that keeps a process-wide batch of random bytes may still hold
+// bytes from an earlier execution's stream, and those must not repeat the values of this one.
+// Inside one execution the epoch is constant, so blocks still differ only at byte Pos.
+var zc33Epochs int
+
+func zc33NewStream(pos int) *zc33Stream {
+	zc33Epochs++
+	return &zc33Stream{Pos: pos, epoch: zc33Epochs}
+}
+
+// zc33PutBits writes v into b starting at byte i (little endian, skipping bits a v4 UUID overwrites).
+func zc33PutBits(b []byte, i, v int, xor bool) {
+	for ; v > 0; i = (i + 1) % 16 {
+		c := zc33Cap(i)
+		d := byte(v & (1<<c - 1))
+		if xor {
+			b[i] ^= d
+		} else {
+			b[i] |= d
+		}
+		v >>= c
+	}
+}
+
 func (s *zc33Stream) block(k int) []byte {
 	b := make([]byte, 16)
 	if s.Pos < 0 {
@@ -144,21 +177,32 @@ func (s *zc33Stream) block(k int) []byte {
 			b[i] = byte(k)
 		}
 		b[1] ^= byte(k >> 8)
+		zc33PutBits(b, 9, s.epoch, true) // bytes 9.. (b[0] gives k, so the XOR is invertible)
 		return b
 	}
-	for i, v := s.Pos, k; v > 0; i = (i + 1) % 16 {
-		c := zc33Cap(i)
-		b[i] |= byte(v & (1<<c - 1))
-		v >>= c
-	}
+	zc33PutBits(b, s.Pos, k, false)              // bytes Pos, Pos+1, ...
+	zc33PutBits(b, (s.Pos+8)%16, s.epoch, false) // bytes Pos+8, ... (never reaches the counter's)
 	return b
 }
 
 func (s *zc33Stream) Read(p []byte) (int, error) {
+	idx := -1
+	if !s.inHook && s.hook != nil {
+		idx = s.reads
+		s.reads++
+		s.inHook = true
+		s.hook(idx, false)
+		s.inHook = false
+	}
 	// every Read starts at a fresh block, so a reader never sees part of an earlier block
 	for off := 0; off < len(p); off += 16 {
 		s.blocks++
 		copy(p[off:], s.block(s.blocks))
+	}
+	if idx >= 0 {
+		s.inHook = true
+		s.hook(idx, true)
+		s.inHook = false
 	}
 	return len(p), nil
 }
@@ -245,7 +289,7 @@ func TestVerif_C33_GCS(t *testing.T) {
 		fake.reset()
 		vsched.FreezeClock(base)
 		defer vsched.UnfreezeClock()
-		stream := &zc33Stream{Pos: cfg.pos}
+		stream := zc33NewStream(cfg.pos)
 		uuid.SetRand(stream)
 		defer uuid.SetRand(nil)
 		// fresh values per execution (copies of the constructor results, so per-handle state such
@@ -324,15 +368,16 @@ func TestVerif_C33_GCS(t *testing.T) {
 				if ups[i].key != ups[j].key {
 					continue
 				}
-				class := stream.name()
-				if ups[i].blocks == 0 || ups[j].blocks == 0 {
-					gap := ups[j].at.Sub(ups[i].at)
-					class = "no-entropy-read:clock-apart>=1us"
-					if gap == 0 {
-						class = "no-entropy-read:same-instant"
-					} else if ups[i].at.Truncate(time.Microsecond).Equal(ups[j].at.Truncate(time.Microsecond)) {
-						class = "no-entropy-read:same-microsecond"
-					}
+				// The class is a function of the choice list only (clock distance; the entropy
+				// stream when the clock cannot explain the collision). It must not depend on
+				// whether THIS execution saw an entropy read: a generator with process-wide
+				// state (a batch of random bytes, say) reads entropy in some executions only.
+				gap := ups[j].at.Sub(ups[i].at)
+				class := "clock-apart>=1us:" + stream.name()
+				if gap == 0 {
+					class = "same-instant"
+				} else if ups[i].at.Truncate(time.Microsecond).Equal(ups[j].at.Truncate(time.Microsecond)) {
+					class = "same-microsecond"
 				}
 				if ups[i].handle != ups[j].handle {
 					class = "two-handles:" + class
@@ -342,13 +387,119 @@ func TestVerif_C33_GCS(t *testing.T) {
 					i, ups[i].handle, j, ups[j].handle, ups[j].at.Sub(ups[i].at).Nanoseconds(), ups[i].blocks, ups[j].blocks, stream.name(), ups[i].key, j, i)
 			}
 		}
-		entropy := true
-		for _, u := range ups {
-			entropy = entropy && u.blocks > 0
-		}
 		shape := fmt.Sprintf("prefix-ok=%v len=%d", strings.HasPrefix(ups[0].key, wantPrefix), len(ups[0].key)-len(wantPrefix))
-		x.Outcome("n=%d prefix=%q partition=%v ext=%v entropy-read=%v %s", n, cfg.prefix, part, exts, entropy, shape)
+		x.Outcome("n=%d prefix=%q partition=%v ext=%v %s", n, cfg.prefix, part, exts, shape)
 	}
+	// Overlap on the entropy seam (see the S3 harness): a long sequence of uploads through
+	// handle 0 during which ONE read of the uuid entropy source — the k-th top-level Read seen in
+	// this execution, k enumerated; the storage client's own uuid.New() calls for invocation ids
+	// count as reads too — runs a second upload through handle 1 re-entrantly, before or after
+	// the bytes are delivered.
+	const longN = 130
+	overlapBody := func(x *venum.X, nOverlap int, cfgs []zc33Cfg) {
+		ov := x.Choose(nOverlap+1, "overlapped-entropy-read-index (last = no overlap)")
+		after := false
+		if ov < nOverlap {
+			after = x.Bool("second upload runs after (not before) the bytes are delivered")
+		} else {
+			ov = -1 // no read is overlapped
+		}
+		cfg := cfgs[x.Choose(len(cfgs), "config(entropy-stream x encodings x prefix)")]
+		fake.reset()
+		vsched.FreezeClock(base)
+		defer vsched.UnfreezeClock()
+		stream := zc33NewStream(cfg.pos)
+		handles := [2]*GCSStorage{}
+		for h := range handles {
+			cp := *tmpl[cfg.prefix][h]
+			handles[h] = &cp
+			handles[h].client = client
+		}
+		type up struct {
+			key    string
+			nested bool
+			seq    int
+		}
+		var ups []up
+		broken := false
+		upload := func(h int) (string, bool) {
+			_, err := handles[h].Upload([]byte("same-payload"), nil, cfg.enc[0])
+			if err != nil || len(fake.objs) == 0 {
+				venum.EngineError("overlap space: Upload failed against the fake endpoint: %v (bad=%v)", err, fake.bad)
+				broken = true
+				return "", false
+			}
+			return fake.objs[len(fake.objs)-1].Name, true
+		}
+		cur, happened := 0, false
+		stream.hook = func(read int, aft bool) {
+			if read != ov || aft != after || happened || broken {
+				return
+			}
+			happened = true
+			if k, ok := upload(1); ok {
+				ups = append(ups, up{key: k, nested: true, seq: cur})
+			}
+		}
+		uuid.SetRand(stream)
+		defer uuid.SetRand(nil)
+		for cur = 0; cur < longN && !broken; cur++ {
+			if k, ok := upload(0); ok {
+				ups = append(ups, up{key: k, seq: cur})
+			}
+		}
+		uuid.SetRand(nil)
+		if broken {
+			return
+		}
+		if want := longN + map[bool]int{true: 1}[happened]; len(fake.objs) != want || len(ups) != want {
+			venum.EngineError("overlap space: %d objects written, %d recorded, want %d (bad=%v)", len(fake.objs), len(ups), want, fake.bad)
+			return
+		}
+		x.Note("top-level entropy reads in this execution: %d", stream.reads)
+		first := map[string]int{}
+		collisions := 0
+		for j, u := range ups {
+			i, seen := first[u.key]
+			if !seen {
+				first[u.key] = j
+				continue
+			}
+			collisions++
+			a, b := ups[i], u
+			rel := "between-sequential-uploads"
+			if a.nested || b.nested {
+				n, o := a, b
+				if b.nested {
+					n, o = b, a
+				}
+				switch {
+				case o.seq < n.seq:
+					rel = "overlapping-upload-vs-earlier-upload"
+				case o.seq == n.seq:
+					rel = "overlapping-upload-vs-overlapped-upload"
+				default:
+					rel = "overlapping-upload-vs-later-upload"
+				}
+			}
+			x.Failf("C33:gcs:key-reused:overlapped-entropy-read:"+rel,
+				"%d uploads through handle 0; entropy read #%d of this execution was overlapped (%s the bytes were delivered) by an upload through handle 1; uploads [seq %d nested=%v] and [seq %d nested=%v] both wrote object %q",
+				longN, ov, map[bool]string{false: "before", true: "after"}[after], a.seq, a.nested, b.seq, b.nested, u.key)
+		}
+		wantPrefix := cfg.prefix
+		if wantPrefix == "" {
+			wantPrefix = "vgi-rpc/"
+		}
+		x.Outcome("long uploads=%d overlap-happened=%v collisions=%d prefix-ok=%v len=%d", len(ups), happened, collisions,
+			strings.HasPrefix(ups[0].key, wantPrefix), len(ups[0].key)-len(wantPrefix))
+	}
+	// quick: the first 6 entropy reads of the execution; thorough: the first 70 (one read per
+	// upload on the unchanged tree, so that is an overlap at each of the first 70 uploads)
+	venum.Explore(t, venum.Cfg{Name: "gcs-overlapped-entropy-read", Shardable: true, CheckDeterminism: true},
+		func(x *venum.X) {
+			overlapBody(x, venum.QT(6, 70), venum.QT(cfgs[3:4], []zc33Cfg{cfgs[0], cfgs[len(cfgs)-1]}))
+		})
+
 	// every interleaving of the two handles, sequences <=3 (quick) / <=4 (thorough)
 	venum.Explore(t, venum.Cfg{Name: "gcs-two-handle-sequences", Shardable: true, DevBound: -1, CheckDeterminism: true},
 		func(x *venum.X) { body(x, true, venum.QT(3, 4)) })
